@@ -2,7 +2,8 @@ from props import brow_common as bc
 
 SPEC = {
     "properties_file": "Properties_C14.v",
-    "facts": ["browse_period_ms", "service_batch_ms", "browse_type", "service_eq_fields", "cache_match", "cache_lookup_match"],
+    "facts": ["browse_period_ms", "service_batch_ms", "browse_type", "service_eq_fields", "cache_match", "cache_lookup_match",
+              "browser_any", "browser_ptr_browse", "browser_ptr_type", "browser_srvtxt", "browser_not_of_interest"],
     "assumptions": ["browsers sharing a cache are attached to the same server; slots never add records re-entrantly",
                     "QSet iteration order is canonicalised in the comparison (sorted in the model, hash order in Qt)"],
 }
